@@ -67,7 +67,12 @@ def main(argv=None):
     if argv and argv[0] == "--sequence":
         with open(argv[1]) as f:
             body = json.load(f)
-        msg = replay_sequence(body)
+        try:
+            msg = replay_sequence(body)
+        except Exception:      # noqa: BLE001
+            import traceback
+            traceback.print_exc()
+            return 2
         print("   " + str(msg)[:1500] if msg else "holds")
         return 1 if msg else 0
     shrink = "--no-shrink" not in argv
@@ -75,7 +80,13 @@ def main(argv=None):
     path = argv[0]
     with open(path) as f:
         body = json.load(f)
-    msg = replay_case(body, shrink=shrink)
+    try:
+        msg = replay_case(body, shrink=shrink)
+    except Exception:      # noqa: BLE001  (a crashing replayer must not look like a reproduced violation)
+        import traceback
+        traceback.print_exc()
+        print("REPLAY property=%s verdict=ERROR case=%s" % (body.get("property"), path))
+        return 2
     if msg is None:
         print("REPLAY property=%s verdict=HOLDS case=%s" % (body["property"], path))
         return 0
